@@ -88,6 +88,18 @@ def rand_client_tail(rng):
     return [rand_body(rng), rng.choice((0, 1, 1, 1, 2)), rng.choice((0, 0, 0, 0, 3)), resp, rand_trailers(rng), ops]
 
 
+# ---- request headers of a client-side trace (c16.hdr): (0 k v) the transport reports a field (k = 0: a pseudo-header),
+# (1) cancellation completes the trace, (2) a consumer reads the delivered trace's request headers ----
+HACTS = [[0, 1, 1], [0, 2, 1], [0, 1, 2], [0, 0, 1], [1], [2]]
+
+
+def hdr_late(k, m, reads):
+    """k fields before the cancellation, m >= 1 fields AFTER it (new keys and a re-written key), then reads"""
+    pre = [[0, 1 + i, 1] for i in range(k)]
+    post = [[0, (k + 1 + i) if i % 2 == 0 else 1, 2 + i] for i in range(m)]
+    return pre + [[1]] + post + [[2]] * reads
+
+
 # ---- fetchTrace scripts (c16.fetch) ----
 def fetch_ok(acts):
     """A fetch goroutine parked on a slot that is replaced or cleared can only end by the 5 s TraceTimeout; such
@@ -193,14 +205,14 @@ class C16(Prop):
     id = "C16"
     props = "C16_Props"
     coq_files = ("Base", "C16_Model", "C16_Spec", "C16_Proofs", "C16_Conc", "C16_ConcProofs", "C16_Mw", "C16_MwProofs", "C16_Run",
-                 "C16_RunProofs", "C16_Props")
-    models = ("C16_Run",)   # re-exports C16_Mw -> C16_Conc -> C16_Model; its c16_table holds all twelve kinds
+                 "C16_RunProofs", "C16_Hdr", "C16_HdrProofs", "C16_Props")
+    models = ("C16_Hdr",)   # re-exports C16_Run -> C16_Mw -> C16_Conc -> C16_Model; its c16_table holds all thirteen kinds
     packages = {"tr": "internal/tracer", "cc": "internal/app/connectconformance", "rc": "internal/app/referenceclient"}
     # c16.ballowed / c16.tallowed are not generated: their cases are WRITTEN by the free-running Go test
     # (configuration + what was observed) and judged by the model; they are kinds so that a replay file works.
     kinds = {"c16.tracer": "tr", "c16.builder": "tr", "c16.bfine": "tr", "c16.ballowed": "tr", "c16.tallowed": "tr",
              "c16.mw": "tr", "c16.fetch": "cc", "c16.wire": "rc", "c16.wiremw": "rc",
-             "c16.runner": "cc", "c16.mwk": "tr", "c16.mwlive": "tr"}
+             "c16.runner": "cc", "c16.mwk": "tr", "c16.mwlive": "tr", "c16.hdr": "tr"}
     rule = ("c16.tracer: EVERY sequence of Init/Complete/AwaitBegin/Clear/CtxDone of length <= 5 over 2 names and <= 4 over 3 names "
             "(thorough: <= 6 and <= 5) with 2 waiters, up to renaming, on a real Tracer with waiters parked in the real Await on real "
             "contexts, plus random sequences of length 6-14; c16.builder: EVERY sequence of add/build of length <= 5 (thorough 6) over "
@@ -238,12 +250,22 @@ class C16(Prop):
             "exchange through the real TracingRoundTripper whose transport answers with an empty body value or http.NoBody (every "
             "consumer script <= 4 (thorough 6) + 1500 random over all three kinds); c16.mwlive = live loopback HTTP/1.1 exchanges "
             "(net/http transport, httptest server) answered with Content-Length: 0 / 204 / 304 / to a HEAD request / with three "
-            "bytes: number of Collector.Complete calls (bounded 1.5 s wait, then 0), Err, clean ResponseBodyEnd last")
+            "bytes: number of Collector.Complete calls (bounded 1.5 s wait, then 0), Err, clean ResponseBodyEnd last. "
+            "c16.hdr = request headers of a CLIENT-side trace: one round trip through the real TracingRoundTripper whose scripted "
+            "transport takes the httptrace hooks from the request context and reports header fields (WroteHeaderField, from the "
+            "transport's goroutine; pseudo-headers too) before and AFTER the cancellation that completes the trace; the collector "
+            "takes RequestStart.getHeaders() at Collector.Complete, later reads take it again; compared per value taken: contents "
+            "then / contents of the same value after the script; every run: k = 0..3 fields before the cancellation x m = 1..3 "
+            "after it x 0..2 reads, every script <= 5 (thorough 6) over 6 actions, 1500 random; extra: TestVerifC16HdrRace under "
+            "-race (the consumer prints the delivered trace while the transport goroutine goes on reporting fields)")
     trusted_base = ("Coq 8.16.1 kernel (vm_compute used, native_compute not)", "extraction (ExtrOcamlBasic only) + ocaml/driver.ml",
                     "vlib generators/comparator, Go overlay harness (harness/C16)",
                     "c16.runner: the test package's own newFakeProcess / discardPrinter fakes for the server process; "
                     "c16.mwlive: net/http's HTTP/1.1 transport and httptest server (that they hand out http.NoBody for "
                     "Content-Length: 0 / 204 / 304 / HEAD)",
+                    "c16.hdr: that net/http reports request header fields through httptrace.ClientTrace.WroteHeaderField taken "
+                    "from the request context, from the transport's goroutine, possibly after the caller cancelled (the fake "
+                    "transport does exactly that; not checked against net/http)",
                     "modelled not verified: Go mutex / channel close / select semantics (one action per lock region; a closed "
                     "done channel wakes every goroutine selecting on it), context cancellation",
                     "free-running runs: the Go race detector (cgo build), the runtime's goroutine dump used to see that a waiter is "
@@ -278,7 +300,12 @@ class C16(Prop):
                   "sendRequest of their test case started (also before it returns), the fetch goroutine obtains the first trace "
                   "completed for its name and no slot is left (runner_trace_available, runner_leaves_no_slot, from first_trace / "
                   "slot_view); TracingRoundTripper completes exactly once for EVERY kind of response body value - bytes, empty, "
-                  "http.NoBody - once the caller closed or read to the end (roundtrip_completes_once_any_body). "
+                  "http.NoBody - once the caller closed or read to the end (roundtrip_completes_once_any_body). Client-side request "
+                  "headers (explicit memory: the live map the httptrace hook fills, also after completion, and the clones "
+                  "getHeaders allocates): for ALL orders of reported fields / completion / reads, every header value the delivered "
+                  "trace hands out holds at the end what it held when handed out (delivered_headers_frozen_after_completion), the "
+                  "collector's value is the set of fields reported before completion (completion_takes_fields_so_far), an "
+                  "undelivered trace hands out nothing. "
                   "The model is tied to tracer.go / builder.go / "
                   "middleware.go / results.go / wire_details.go / server_runner.go by exhaustive small-scope differential runs driving the real functions "
                   "and by free-running goroutines whose observed outcomes must be the outcome of some interleaving (oracles proved "
@@ -298,7 +325,13 @@ class C16(Prop):
                   "or whose client never answers is outside the runner model (C10/C11). In c16.runner the events scheduled 'after "
                   "the last sendRequest returned' are released by a deferred close inside sendRequest, i.e. they may overlap the "
                   "runner's next statement - irrelevant on a tree that initialises before sending. The unwrapped-body script "
-                  "(client_script_w with a wrap function that skips http.NoBody) exists only for the counter-example.")
+                  "(client_script_w with a wrap function that skips http.NoBody) exists only for the counter-example; likewise the "
+                  "HLive policy of C16_Hdr (getHeaders returning the live map = seeded C16-14, ex_live_map_written_after_completion). "
+                  "Request headers: getHeaders is a function evaluated at each call, so a LATER read of a delivered client trace shows "
+                  "fields reported after completion (modelled and observed identically); what is proved and compared is that a value "
+                  "once handed out is never written again - the absence of the read/write race itself is observed by the race "
+                  "detector (TestVerifC16HdrRace), not proved. c16.hdr forces its schedule (each reported field is acknowledged), "
+                  "so its verdict does not depend on timing.")
     technique = ("Coq invariant proofs over arbitrary action lists (tracer slots/waiters, builder, two-step builder refinement, "
                  "middleware scripts as functions of the exchange, consumer state machines); exhaustive small-scope differential on the "
                  "real Tracer, builder, TracingHandler / TracingRoundTripper, testResults.fetchTrace, wireTracer, runTestCasesForServer "
@@ -313,6 +346,10 @@ class C16(Prop):
             return res != "(() ())"
         if case[0] in ("c16.runner", "c16.mwlive"):
             return "(1 " in res
+        if case[0] == "c16.hdr":
+            # a field reported after the cancellation
+            acts = case[1]
+            return any(a[0] == 1 and any(b[0] == 0 and b[1] != 0 for b in acts[i + 1:]) for i, a in enumerate(acts))
         if case[0] == "c16.fetch":
             return "(1 " in res
         if case[0] == "c16.wiremw":
@@ -339,6 +376,12 @@ class C16(Prop):
         if case[0] == "c16.mwk":
             return ("TracingRoundTripper with a response body VALUE of the given kind (1 = empty body, 2 = http.NoBody): collector "
                     "calls differ from the proved model (roundtrip_completes_once_any_body: exactly one for every kind)")
+        if case[0] == "c16.hdr":
+            return ("client-side request headers (builder.go newBuilder / RequestStart.getHeaders) through the real TracingRoundTripper, "
+                    "the transport reporting header fields before and after the cancellation that completes the trace: per value "
+                    "the delivered trace handed out (at Collector.Complete, at later reads) its contents THEN and the contents of "
+                    "the same value at the END differ from the proved model (delivered_headers_frozen_after_completion: equal; a "
+                    "value that changed was written by the transport after the trace was delivered)")
         if case[0] == "c16.mwlive":
             return ("live HTTP/1.1 exchange without a response body (0 Content-Length: 0, 1 = 204, 2 = 304, 3 = HEAD; 4 = three "
                     "bytes) through TracingRoundTripper: (Collector.Complete calls, Err, clean ResponseBodyEnd last); (0) = the "
@@ -415,6 +458,17 @@ class C16(Prop):
                     yield ["c16.mwk", "T/x", kind, [i % 2, [1], 0], (1, 0, 2, 1)[i % 4], 0, [i % 2, [], 0], [], [list(o) for o in ops]]
         for _ in range(1500 if quick else 40000):
             yield ["c16.mwk", rng.choice(["T/x", "T/x", "T/x", "n", ""]), rng.choice([0, 1, 1, 2, 2, 2])] + rand_client_tail(rng)
+        # ---- request headers of a client-side trace: fields reported before and AFTER the cancellation ----
+        for k in range(4):
+            for m in range(1, 4):
+                for reads in (0, 1, 2):
+                    yield ["c16.hdr", hdr_late(k, m, reads)]
+        for n in range(0, (5 if quick else 6) + 1):
+            for acts in itertools.product(HACTS, repeat=n):
+                yield ["c16.hdr", [list(a) for a in acts]]
+        for _ in range(1500 if quick else 30000):
+            acts = [rng.choice([[0, rng.randint(0, 5), rng.randint(1, 9)]] * 4 + [[1], [2], [2]]) for _ in range(rng.randint(6, 14))]
+            yield ["c16.hdr", acts]
         # live loopback HTTP/1.1: Content-Length: 0, 204, 304, HEAD (net/http hands out http.NoBody), three bytes
         for v in range(5):
             yield ["c16.mwlive", "T/live", v]
@@ -572,6 +626,8 @@ class C16(Prop):
         vs = self._free_run(ctx, False, 3000 if quick else 40000, 2500 if quick else 30000, 4500 if quick else 120000)
         vs += self._free_run(ctx, True, 1000 if quick else 10000, 1000 if quick else 10000, 2500 if quick else 60000)
         vs += self._race_run(ctx, "TestVerifC16Race", 300 if quick else 5000, 300)
+        # a client round trip cancelled while the transport goroutine still reports header fields; the consumer prints the trace
+        vs += self._race_run(ctx, "TestVerifC16HdrRace", 60 if quick else 1500, 300)
         if not quick:
             vs += self._race_run(ctx, "TestVerifC16Stress", 1500, 900)
         return vs
